@@ -58,4 +58,11 @@ def uxda(grid, spec, elem_dim, n_elem, name="v", with_coords=False):
     coords = None
     if with_coords and spec["lead"]:
         coords = {dims[0]: np.arange(spec["lead"][0]) * 10.0}
-    return ux.UxDataArray(arr, dims=dims, uxgrid=grid, name=name, coords=coords), arr
+    # the array handed to the library is its own copy: expectations are computed from `arr`, which no call can reach
+    return ux.UxDataArray(arr.copy(), dims=dims, uxgrid=grid, name=name, coords=coords), arr
+
+
+def modified(da, arr):
+    """True when the variable an operation was called on no longer holds the values it was built from."""
+    now = np.asarray(da.values)
+    return now.shape != arr.shape or now.dtype != arr.dtype or not np.array_equal(now, arr, equal_nan=arr.dtype.kind in "fc")
